@@ -1044,6 +1044,12 @@ func slReplay(args []string) int {
 			return 2
 		}
 		coreStats["latest_pairs"] = lst
+		wst, err := slRunWatch(x, universes)
+		if err != nil {
+			fmt.Fprintln(os.Stderr, "watch leg failed:", err)
+			return 2
+		}
+		coreStats["watched_blocks"] = wst
 	}
 	x.flushAggs()
 	if err := x.w.Flush(); err != nil {
